@@ -52,6 +52,23 @@ Definition d_n_valid (d : dmap) : Z := zcount valid (dense d).
 Definition d_cov_count (d : dmap) (c : Z) : Z :=
   zcount (fun p => valid (d_read d p)) (zrange (c * d_nfine d) ((c + 1) * d_nfine d)).
 
+(* fraction numerators: #valid children of coarse pixel q when r fine pixels make one coarse *)
+Definition d_group_count (d : dmap) (r q : Z) : Z :=
+  zcount (fun p => valid (d_read d p)) (zrange (q * r) ((q + 1) * r)).
+Definition d_group_counts (d : dmap) (r : Z) : list Z :=
+  map (d_group_count d r) (zrange 0 (d_npix d / r)).
+Definition d_cov_counts (d : dmap) : list Z := map (d_cov_count d) (zrange 0 (d_ncov d)).
+Definition d_valid_pixels_covpix (d : dmap) (c : Z) : list Z :=
+  filter (fun p => valid (d_read d p)) (zrange (c * d_nfine d) ((c + 1) * d_nfine d)).
+(* restriction to one coverage pixel *)
+Definition d_single_covpix (d : dmap) (c : Z) : dmap :=
+  let inside p := (c * d_nfine d <=? p) && (p <? (c + 1) * d_nfine d) in
+  let cov := znth false (dcov d) c in
+  mkd (d_nfine d)
+      (map (fun p => if inside p && cov then d_read d p else d_blank d) (zrange 0 (d_npix d)))
+      (map (fun c' => (c' =? c) && cov) (zrange 0 (d_ncov d)))
+      (d_blank d).
+
 (* abstraction L1 -> L0 *)
 Definition abs (m : smap V) : dmap :=
   mkd (nfine m)
